@@ -19,12 +19,13 @@ V == {"v1", "v2"}                 \* the two bonded validators
 Target(v) == CASE v = "valid" -> "v1" [] v = "second" -> "v2" [] OTHER -> "none"
 Other(x) == IF x = "v1" THEN "v2" ELSE "v1"
 VARIABLES bal, del, unb, voted, active, burned,
+          slashed, \* validator v2 was slashed for a double sign (BeginBlock evidence); the behaviour ends there: shares no longer equal tokens
           redel,   \* redel[a] = set of <<src, dst>> redelegations of a still maturing (a validator that received one cannot be redelegated from)
           last
-stateVars == <<bal, del, unb, voted, active, burned, redel>>
+stateVars == <<bal, del, unb, voted, active, burned, redel, slashed>>
 vars == <<stateVars, last>>
 Init == /\ bal = [a \in Accts |-> Start] /\ del = [a \in Accts |-> [x \in V |-> 0]] /\ unb = [a \in Accts |-> 0] /\ redel = [a \in Accts |-> {}]
-        /\ voted = [a \in Accts |-> 0] /\ active = TRUE /\ burned = 0
+        /\ voted = [a \in Accts |-> 0] /\ active = TRUE /\ burned = 0 /\ slashed = FALSE
         /\ last = [act |-> "Init", res |-> "ok"]
 Actor(path) == CASE path = "direct" -> "eoa" [] path = "forward" -> "fwd" [] OTHER -> "none"
 NativeOK(a, op, v, n, o) ==
@@ -47,29 +48,36 @@ TxOK(path, op, v, n, o) ==
 TxEff(path, op, v, n, o) ==
   IF ~(Actor(path) \in Accts /\ NativeOK(Actor(path), op, v, n, o)) THEN UNCHANGED stateVars
   ELSE LET a == Actor(path) IN
-    CASE op = "delegate"   -> bal' = [bal EXCEPT ![a] = @ - n] /\ del' = [del EXCEPT ![a][Target(v)] = @ + n] /\ UNCHANGED <<unb, voted, active, burned, redel>>
-      [] op = "undelegate" -> del' = [del EXCEPT ![a][Target(v)] = @ - n] /\ unb' = [unb EXCEPT ![a] = @ + n] /\ UNCHANGED <<bal, voted, active, burned, redel>>
+    CASE op = "delegate"   -> bal' = [bal EXCEPT ![a] = @ - n] /\ del' = [del EXCEPT ![a][Target(v)] = @ + n] /\ UNCHANGED <<unb, voted, active, burned, redel, slashed>>
+      [] op = "undelegate" -> del' = [del EXCEPT ![a][Target(v)] = @ - n] /\ unb' = [unb EXCEPT ![a] = @ + n] /\ UNCHANGED <<bal, voted, active, burned, redel, slashed>>
       [] op = "withdraw"   -> UNCHANGED stateVars                         \* no rewards accrue in these behaviours
       [] op = "redelegate" -> /\ del' = [del EXCEPT ![a][Target(v)] = @ - n, ![a][Other(Target(v))] = @ + n]
                               /\ redel' = [redel EXCEPT ![a] = @ \cup {<<Target(v), Other(Target(v))>>}]
-                              /\ UNCHANGED <<bal, unb, voted, active, burned>>
-      [] op \in {"vote", "votew"} -> voted' = [voted EXCEPT ![a] = o] /\ UNCHANGED <<bal, del, unb, active, burned, redel>>
+                              /\ UNCHANGED <<bal, unb, voted, active, burned, slashed>>
+      [] op \in {"vote", "votew"} -> voted' = [voted EXCEPT ![a] = o] /\ UNCHANGED <<bal, del, unb, active, burned, redel, slashed>>
 (* A contract that calls the gov contract twice in one transaction (two Voted events of the system contract with the  *)
 (* same sender "dbl"): vote o1 on proposal 1 (v = "valid") or on a proposal that does not exist, then vote o2 on        *)
 (* proposal 1.  Every event is executed; if any native message fails the whole transaction is reverted.              *)
 Tx2OK(v, o1, o2) == active /\ v = "valid" /\ o1 \in 1..4 /\ o2 \in 1..4
-Tx2Eff(v, o1, o2) == IF "dbl" \in Accts /\ Tx2OK(v, o1, o2) THEN voted' = [voted EXCEPT !["dbl"] = o2] /\ UNCHANGED <<bal, del, unb, active, burned, redel>>
+Tx2Eff(v, o1, o2) == IF "dbl" \in Accts /\ Tx2OK(v, o1, o2) THEN voted' = [voted EXCEPT !["dbl"] = o2] /\ UNCHANGED <<bal, del, unb, active, burned, redel, slashed>>
                      ELSE UNCHANGED stateVars
 (* the voting period ends without quorum: the deposit is "burned", i.e. moved to the fee collector *)
-ExpireEff == IF active THEN active' = FALSE /\ burned' = burned + Deposit /\ voted' = [a \in Accts |-> 0] /\ UNCHANGED <<bal, del, unb, redel>>
+ExpireEff == IF active THEN active' = FALSE /\ burned' = burned + Deposit /\ voted' = [a \in Accts |-> 0] /\ UNCHANGED <<bal, del, unb, redel, slashed>>
              ELSE UNCHANGED stateVars
+(* Double-sign evidence against validator v2 arrives in BeginBlock: a fraction of what is staked with it - bonded, and    *)
+(* unbonding or redelegated since the infraction - is "burned" by the staking module, i.e. (adapter/bank) moved to the  *)
+(* fee collector.  How much (rounding of shares) is left open; the behaviour ends here.                                *)
+SlashEff == /\ ~slashed /\ slashed' = TRUE /\ \E x \in 0..(2 * Start * 3) : burned' = burned + x
+            /\ UNCHANGED <<bal, del, unb, voted, active, redel>>
 Res(ok) == IF ok THEN "ok" ELSE "err"
-Next ==
+Next0 ==
   \/ \E p \in Paths, op \in Ops, v \in Vals, n \in Amts, o \in Options :
        TxEff(p, op, v, n, o) /\ last' = [act |-> "Tx", res |-> Res(TxOK(p, op, v, n, o)), path |-> p, op |-> op, val |-> v, amt |-> n, opt |-> o]
   \/ \E v \in {"valid", "unknown"}, o1 \in Options, o2 \in Options :
        Tx2Eff(v, o1, o2) /\ last' = [act |-> "Tx2", res |-> Res(Tx2OK(v, o1, o2)), val |-> v, opt |-> o1, opt2 |-> o2]
   \/ ExpireEff /\ last' = [act |-> "Expire", res |-> "ok"]
+  \/ SlashEff /\ last' = [act |-> "Slash", res |-> "ok"]
+Next == ~slashed /\ Next0
 Spec == Init /\ [][Next]_vars
 (* C17 *)
 Conserved == \A a \in Accts : bal[a] + del[a]["v1"] + del[a]["v2"] + unb[a] = Start
